@@ -178,7 +178,7 @@ func runFinalizeProposal(ctx *action.Context, tx action.RawTx) (bool, action.Res
 	}
 	options, err := ctx.GovernanceStore.GetProposalOptionsByType(proposal.Type)
 	if err != nil {
-		helpers.LogAndReturnFalse(ctx.Logger, governance.ErrGetProposalOptions, finalizedProposal.Tags(), err)
+		return helpers.LogAndReturnFalse(ctx.Logger, governance.ErrGetProposalOptions, finalizedProposal.Tags(), err)
 	}
 	//Handle Result Passed
 	if voteStatus.Result == governance.VOTE_RESULT_PASSED {
